@@ -45,6 +45,10 @@ static Word   AdrReg, AdrWord;
 /* Utility Functions */
 
 static void PutCode(Word Code) {
+    if (SetMaxCodeLen((CodeLen + 1) << 1)) {
+        WrError(ErrNum_CodeOverflow);
+        return;
+    }
     WAsmCode[CodeLen++] = Code;
 }
 
